@@ -449,14 +449,34 @@ struct File {
 }
 
 impl File {
+    /// Records `op` on this file in the verification write trace.
+    #[cfg(aranya_core_verif)]
+    fn verif_record(&self, op: verif_trace::Op) {
+        verif_trace::record(Arc::as_ptr(&self.fd) as usize, op);
+    }
+
+    /// Records a completed `pwrite` in the verification write trace.
+    #[cfg(aranya_core_verif)]
+    fn verif_pwrite(&self, off: i64, data: &[u8]) {
+        verif_trace::record_pwrite(Arc::as_ptr(&self.fd) as usize, off, data);
+    }
+
     fn fallocate(&self, offset: i64, len: i64) -> Result<(), StorageError> {
         libc::fallocate(&self.fd, 0, offset, len)?;
+        #[cfg(aranya_core_verif)]
+        self.verif_record(verif_trace::Op::Fallocate {
+            mode: 0,
+            off: offset,
+            len,
+        });
         // A full `fsync` (not `fdatasync`) so the size/extent metadata
         // dirtied by `fallocate` is durable before any data written into
         // the new region is committed; `fdatasync` may skip metadata not
         // needed to read back already-written data. This runs once per
         // `PREALLOC_CHUNK`, not per commit.
         libc::fsync(&self.fd)?;
+        #[cfg(aranya_core_verif)]
+        self.verif_record(verif_trace::Op::Fsync);
         Ok(())
     }
 
@@ -489,6 +509,8 @@ impl File {
                     return Err(StorageError::IoError);
                 }
                 Ok(n) => {
+                    #[cfg(aranya_core_verif)]
+                    self.verif_pwrite(offset, buf.get(..n).unwrap_or(buf));
                     buf = buf.get(n..).assume("`n` is in bounds")?;
                     offset = offset
                         .checked_add(i64::try_from(n).assume("write within bounds")?)
@@ -507,6 +529,8 @@ impl File {
         // mapping), never timestamps. It avoids the extra inode-metadata journal
         // commit that `fsync` forces.
         libc::fdatasync(&self.fd)?;
+        #[cfg(aranya_core_verif)]
+        self.verif_record(verif_trace::Op::Fdatasync);
         Ok(())
     }
 
@@ -551,6 +575,108 @@ impl File {
             error!(?err, "load");
             StorageError::IoError
         })
+    }
+}
+
+/// Write-trace recorder for the verification harness.
+///
+/// Compiled only with `--cfg aranya_core_verif`. Records every `pwrite`,
+/// `fdatasync`, `fsync` and `fallocate` issued on a graph file, in issue
+/// order and after the system call returned successfully, into a global
+/// log that the harness drains. Nothing is recorded unless enabled.
+#[cfg(aranya_core_verif)]
+pub mod verif_trace {
+    extern crate std;
+
+    use alloc::vec::Vec;
+    use core::sync::atomic::{AtomicBool, Ordering};
+    use std::sync::Mutex;
+
+    /// One operation on a graph file (or a marker pushed by the harness).
+    #[derive(Clone, Debug, PartialEq, Eq)]
+    pub enum Op {
+        /// `pwrite(fd, data, off)` wrote all of `data`.
+        Pwrite {
+            /// File offset of the write.
+            off: i64,
+            /// The bytes written.
+            data: Vec<u8>,
+        },
+        /// `fdatasync(fd)` returned.
+        Fdatasync,
+        /// `fsync(fd)` returned.
+        Fsync,
+        /// `fallocate(fd, mode, off, len)` returned.
+        Fallocate {
+            /// The `mode` argument.
+            mode: i32,
+            /// The `offset` argument.
+            off: i64,
+            /// The `len` argument.
+            len: i64,
+        },
+        /// A marker inserted with [`mark`].
+        Mark(u64),
+    }
+
+    /// A recorded operation together with the identity of the open file.
+    #[derive(Clone, Debug, PartialEq, Eq)]
+    pub struct Event {
+        /// Identity of the open file (0 for markers).
+        pub file: usize,
+        /// The operation.
+        pub op: Op,
+    }
+
+    static ENABLED: AtomicBool = AtomicBool::new(false);
+    static LOG: Mutex<Vec<Event>> = Mutex::new(Vec::new());
+
+    fn push(ev: Event) {
+        if ENABLED.load(Ordering::SeqCst) {
+            match LOG.lock() {
+                Ok(mut log) => log.push(ev),
+                Err(poisoned) => poisoned.into_inner().push(ev),
+            }
+        }
+    }
+
+    /// Turns recording on or off.
+    pub fn enable(on: bool) {
+        ENABLED.store(on, Ordering::SeqCst);
+    }
+
+    /// Records `op` on `file`.
+    pub fn record(file: usize, op: Op) {
+        push(Event { file, op });
+    }
+
+    /// Records a completed `pwrite`.
+    pub fn record_pwrite(file: usize, off: i64, data: &[u8]) {
+        if ENABLED.load(Ordering::SeqCst) {
+            push(Event {
+                file,
+                op: Op::Pwrite {
+                    off,
+                    data: data.to_vec(),
+                },
+            });
+        }
+    }
+
+    /// Inserts a marker into the log.
+    pub fn mark(tag: u64) {
+        push(Event {
+            file: 0,
+            op: Op::Mark(tag),
+        });
+    }
+
+    /// Removes and returns everything recorded so far.
+    pub fn drain() -> Vec<Event> {
+        match LOG.lock() {
+            Ok(mut log) => core::mem::take(&mut *log),
+            Err(poisoned) => core::mem::take(&mut *poisoned.into_inner()),
+        }
     }
 }
 
